@@ -202,11 +202,20 @@ def schemes(draw, *, labels="neutral", allow_full=True, max_datasets=4, features
                                   "weight": draw(st.sampled_from([0.1, 1.0, 3.0]))})
         # constraints may also hit related clps: on the source, or on the target on another interval, the statement
         # defines the outcome (source 0 => target p*0; target constrained only where the relation does not apply)
+        ds_labels_sets = [sorted({l for m in d["megacomplex"] for l in megacomplexes[m]["labels"]}) for d in datasets]
+        rel_targets = {t_ for _, t_ in rel_pairs}
+        constrained = set()
         for _ in range(draw(st.integers(0, 2))):
             iv = _maybe_intervals(draw, pool)
             kind = draw(st.sampled_from(["zero", "only"]))
             tpool = related if (related and draw(st.booleans())) else present
-            constraints.append({"type": kind, "target": draw(st.sampled_from(tpool)), "interval": iv})
+            # construction over rejection: every dataset keeps at least one clp that is neither constrained nor a relation target
+            ok = [l for l in tpool if all(any(o != l and o not in constrained and o not in rel_targets for o in ls) for ls in ds_labels_sets if l in ls)]
+            if not ok:
+                continue
+            t = draw(st.sampled_from(ok))
+            constrained.add(t)
+            constraints.append({"type": kind, "target": t, "interval": iv})
         for _ in range(draw(st.integers(0, 1))):
             k = draw(st.integers(1, len(datasets)))
             wl = draw(st.lists(st.sampled_from([d["label"] for d in datasets]), min_size=k, max_size=k, unique=True))
